@@ -2,6 +2,7 @@ package main
 
 import (
 	"fmt"
+	"go/constant"
 	"go/token"
 	"go/types"
 	"strings"
@@ -128,14 +129,34 @@ func (fr *Frame) callSiteObligations(b *ssa.BasicBlock, c *ssa.CallCommon, st *S
 		for _, p := range fr.fn.Params {
 			args = append(args, fr.get(p))
 		}
-		if len(cs.Args) > len(callArgs) {
+		args = append(args, vc.rootOlds...)
+		declared := cs.Args
+		if len(declared) > 0 && declared[0][0] == "recv" {
+			// the first declared argument named recv denotes the receiver
+			if c.IsInvoke() {
+				args = append(args, fr.get(c.Value))
+			} else if len(c.Args) > len(callArgs) {
+				args = append(args, fr.get(c.Args[0]))
+			} else {
+				panic(unsupported("call clause with recv on a function without receiver: " + name))
+			}
+			declared = declared[1:]
+		}
+		if len(declared) > len(callArgs) {
 			panic(unsupported("call clause with more arguments than the call has: " + name))
 		}
-		for i := range cs.Args {
+		for i := range declared {
 			args = append(args, fr.get(callArgs[i]))
 		}
 		for _, lv := range cs.Vars {
-			v, ok := fr.localAtBlock(b, lv[0])
+			limit := len(b.Instrs)
+			for i, ins := range b.Instrs {
+				if ci, isCall := ins.(ssa.CallInstruction); isCall && ci.Common() == c {
+					limit = i
+					break
+				}
+			}
+			v, ok := fr.localBefore(b, limit, lv[0])
 			if !ok {
 				panic(unsupported(fmt.Sprintf("call clause of %s: cannot resolve local %q", fr.fn.Name(), lv[0])))
 			}
@@ -228,6 +249,28 @@ func (fr *Frame) callFunc(b *ssa.BasicBlock, f *ssa.Function, c *ssa.CallCommon,
 	if f.Pkg != nil && (name == "verif_forall" || name == "verif_exists") {
 		return fr.quantifier(name == "verif_forall", c, args, st, reach)
 	}
+	if strings.HasPrefix(name, "verif_all[") {
+		return fr.quantifierAll(c, args, st, reach)
+	}
+	if f.Pkg != nil && strings.HasPrefix(name, "verif_") {
+		if v, ok := fr.ghostPredicate(name, args, st); ok {
+			return v
+		}
+	}
+	if f.Pkg != nil && (name == "verif_uf_str" || name == "verif_uf_u64") {
+		// an uninterpreted function of an object reference, named by a constant
+		k, ok := c.Args[0].(*ssa.Const)
+		if !ok || k.Value == nil {
+			panic(unsupported(name + ": the name must be a string constant"))
+		}
+		res, rt := "g_Str", types.Type(types.Typ[types.String])
+		if name == "verif_uf_u64" {
+			res, rt = bvSort(64), types.Typ[types.Uint64]
+		}
+		fn := "g_uf_" + vc.sorts().shortName(constant.StringVal(k.Value)) + "_" + name[9:]
+		eng.needDecl(fmt.Sprintf("(declare-fun %s ((_ BitVec 64)) %s)", fn, res))
+		return &Val{T: rt, S: app(fn, app("g_iref", args[1].S))}
+	}
 	if f.Pkg != nil && name == "verif_fresh" {
 		// the object was allocated during this execution of the function under contract
 		n0 := vc.frame.next0
@@ -309,15 +352,9 @@ func (fr *Frame) havocCall(b *ssa.BasicBlock, f *ssa.Function, c *ssa.CallCommon
 	}
 	fr.frameCall(b, m, nil, st, reach, pos, f.String())
 	if m.all {
-		vc.havocAll(st)
 		vc.note("callee with unbounded effects: " + f.String())
-	} else {
-		for _, k := range m.keys() {
-			vc.registerKey(k)
-			vc.havocHeap(st, k, "", nil)
-		}
-		vc.bumpNext(st)
 	}
+	vc.havocMods(st, m)
 	return packResults(c, fr.freshResults(c, st, "res_"+f.Name()))
 }
 
@@ -351,7 +388,14 @@ func (fr *Frame) applyContract(b *ssa.BasicBlock, ct *Contract, c *ssa.CallCommo
 	vc.callOrd[ct.Key]++
 	base := fmt.Sprintf("call-pre:%s:%s#%d", root, ct.Key, ord)
 	f := ct.Fn
-	if f.Signature.Recv() != nil && !ct.NilRecv && !fr.pure {
+	fname := ""
+	if f != nil {
+		fname = f.Name()
+	} else {
+		fname = ct.IfaceMethod.Name()
+		vc.trust("contract of an interface method, assumed of every implementation: " + ct.FullKey())
+	}
+	if f != nil && f.Signature.Recv() != nil && !ct.NilRecv && !fr.pure {
 		if _, isPtr := f.Signature.Recv().Type().Underlying().(*types.Pointer); isPtr && !(args[0].Loc != nil && len(args[0].Loc.Path) > 0) && !(args[0].Loc != nil && args[0].Loc.Kind != locStruct && args[0].Loc.Kind != locBox) {
 			o := vc.addObl("call-pre", root, base+":recv", reach, sNot(sEq(vc.valTerm(args[0]), bvConst(0, 64))), pos)
 			o.Clause = "receiver != nil"
@@ -406,18 +450,65 @@ func (fr *Frame) applyContract(b *ssa.BasicBlock, ct *Contract, c *ssa.CallCommo
 		olds = append(olds, vc.evalClauseVal(o.Clause, args, st, fr))
 	}
 	// frame
-	if !ct.ModNothing {
-		m := vc.eng.funcMods(f)
+	if len(ct.Preserves) > 0 || len(ct.PreserveTypes) > 0 {
+		var protect []string
+		for _, cl := range ct.Preserves {
+			v := vc.evalClauseVal(cl, args, st, fr)
+			protect = append(protect, vc.def(refSort, "keep", app("g_iref", v.S)))
+		}
+		keepPrefixes := ct.keepPrefixes()
+		fr.frameCall(b, &ModSet{all: true, set: map[string]keyInfo{}}, nil, st, reach, pos, ct.Key)
+		vc.havocProtect(st, protect, keepPrefixes)
+		vc.trust("assumed (preserves): " + ct.FullKey() + " leaves the listed objects unchanged")
+	} else if !ct.ModNothing {
+		var m *ModSet
+		if f != nil {
+			m = vc.eng.funcMods(f)
+		} else {
+			m = &ModSet{all: true, set: map[string]keyInfo{}}
+		}
 		var exempt []string
 		framed := len(ct.Modifies) > 0
 		for _, cl := range ct.Modifies {
 			v := vc.evalClauseVal(cl, args, st, fr)
 			exempt = append(exempt, app("g_iref", v.S))
 		}
+		if ct.autoFrame() {
+			// default frame of sweep contracts: the objects passed by pointer (and fresh ones)
+			framed = true
+			exempt = []string{}
+			for i, p := range f.Params {
+				if _, ok := p.Type().Underlying().(*types.Pointer); ok {
+					exempt = append(exempt, vc.valTerm(args[i]))
+				}
+			}
+		}
+		if ct.NoConn {
+			m2 := newModSet()
+			m2.all = m.all
+			for k, v := range m.set {
+				if !strings.HasPrefix(k, "Gh|") {
+					m2.set[k] = v
+				}
+			}
+			m = m2
+			vc.trust("assumed (noconn): " + ct.FullKey() + " does not write to or close a connection")
+		}
 		fr.frameCall(b, m, exempt, st, reach, pos, ct.Key)
 		limit := st.next
-		if m.all {
+		if m.all && len(m.keep) > 0 {
+			vc.havocMods(st, m)
+		} else if m.all {
+			saved := map[string]string{}
+			if ct.NoConn {
+				for _, g := range ghostConnKeys {
+					saved[g.key] = vc.heapVer(st, vc.ghostKey(g.key))
+				}
+			}
 			vc.havocAll(st)
+			for k, v := range saved {
+				st.heap[k] = v
+			}
 			vc.note("contracted callee with unbounded static effects: " + ct.FullKey())
 		} else {
 			for _, k := range m.keys() {
@@ -433,7 +524,7 @@ func (fr *Frame) applyContract(b *ssa.BasicBlock, ct *Contract, c *ssa.CallCommo
 	} else {
 		vc.bumpNext(st) // may allocate
 	}
-	res := fr.freshResults(c, st, "res_"+f.Name())
+	res := fr.freshResults(c, st, "res_"+fname)
 	post := append(append(append([]Val{}, args...), res...), olds...)
 	for _, cl := range ct.Ensures {
 		g := vc.evalClause(cl, post, st, fr)
@@ -512,9 +603,21 @@ func (fr *Frame) frameCheck(b *ssa.BasicBlock, l *Loc, st *State, reach string, 
 
 func (fr *Frame) invoke(b *ssa.BasicBlock, c *ssa.CallCommon, st *State, reach string, pos token.Pos) *Val {
 	vc := fr.vc
+	if m, ok := isConnMethod(c); ok && !fr.pure {
+		return fr.connCall(b, m, c, st, reach, pos)
+	}
 	recv := fr.get(c.Value)
 	tag := app("g_itag", recv.S)
 	fr.safe("nil", reach, sNot(sEq(tag, bvConst(0, 32))), pos)
+	if ct := vc.eng.ifaceContracts[c.Method]; ct != nil {
+		// the interface method has a contract of its own: the call is checked
+		// against it, whatever implementations happen to be loaded
+		cargs := []Val{recv}
+		for _, a := range c.Args {
+			cargs = append(cargs, fr.get(a))
+		}
+		return fr.applyContract(b, ct, c, cargs, st, reach, pos)
+	}
 	impls := vc.eng.implementations(c.Value.Type(), c.Method)
 	args := make([]Val, len(c.Args))
 	for i, a := range c.Args {
@@ -539,16 +642,13 @@ func (fr *Frame) invoke(b *ssa.BasicBlock, c *ssa.CallCommon, st *State, reach s
 		if fr.pure {
 			return packResults(c, fr.freshResults(c, st, "dyn_"+c.Method.Name()))
 		}
-		fr.frameCall(b, m, nil, st, reach, pos, c.Method.Name())
-		if m.all {
-			vc.havocAll(st)
-		} else {
-			for _, k := range m.keys() {
-				vc.registerKey(k)
-				vc.havocHeap(st, k, "", nil)
-			}
-			vc.bumpNext(st)
+		if mn := c.Method.Name(); (mn == "Error" || mn == "String") && len(c.Args) == 0 {
+			// Error() and String() are treated as observers
+			vc.trust("Error()/String() methods called through an interface are assumed to have no side effects")
+			return packResults(c, fr.freshResults(c, st, "dyn_"+mn))
 		}
+		fr.frameCall(b, m, nil, st, reach, pos, c.Method.Name())
+		vc.havocMods(st, m)
 		return packResults(c, fr.freshResults(c, st, "dyn_"+c.Method.Name()))
 	}
 	// closed world: case split on the dynamic type
@@ -606,6 +706,27 @@ func (fr *Frame) callFuncSig(b *ssa.BasicBlock, f *ssa.Function, c *ssa.CallComm
 // ---------------------------------------------------------------------------
 // quantifiers in specifications
 // ---------------------------------------------------------------------------
+
+// quantifierAll: verif_all(func(x T) bool { ... }) holds when the body holds of
+// every value of type T (basic types only).
+func (fr *Frame) quantifierAll(c *ssa.CallCommon, args []Val, st *State, reach string) *Val {
+	vc := fr.vc
+	ci, ok := vc.eng.closures[args[0].S]
+	if !ok {
+		panic(unsupported("quantifier body is not a function literal"))
+	}
+	pt := ci.fn.Signature.Params().At(0).Type()
+	if _, ok := pt.Underlying().(*types.Basic); !ok {
+		panic(unsupported("verif_all over a non-basic type"))
+	}
+	vc.qn++
+	q := fmt.Sprintf("g_q%d", vc.qn)
+	vc.quant++
+	res, _, _ := vc.execClosure(ci, []Val{{T: pt, S: q}}, st.clone(), "true", fr)
+	vc.quant--
+	t := fmt.Sprintf("(forall ((%s %s)) %s)", q, vc.sorts().sortOf(pt), res[0].S)
+	return &Val{T: types.Typ[types.Bool], S: vc.def("Bool", "quant", t)}
+}
 
 func (fr *Frame) quantifier(forall bool, c *ssa.CallCommon, args []Val, st *State, reach string) *Val {
 	vc := fr.vc
